@@ -12,7 +12,8 @@ from vf.core import CaseResult, dtype_mode
 PROPERTY = "C15"
 RULE = ("A zoo transform (random permutations, random-mask MADE, couplings, 1x1 convolutions, splines, normalisation layers, "
         "Sigmoid temperature buffer/parameter, composites), a Flow over it (optional embedding net, conditional base), "
-        "MaskedAutoregressiveFlow(random permutations / random masks / batch-norm) or SimpleRealNVP; history before saving: "
+        "MaskedAutoregressiveFlow(random permutations / random masks / batch-norm), SimpleRealNVP, or a bare distribution (MADEMoG with random masks / "
+        "residual blocks / 1-3 components, also as a flow's base; conditional normal / Bernoulli with Linear encoders; DiagonalNormal); history before saving: "
         "fresh / k SGD steps / 0-3 training-mode forwards (data-dependent initialisation, running statistics). The state "
         "dict (optionally through torch.save/torch.load on an in-memory buffer) is loaded with strict=True into an instance "
         "built from the same constructor arguments under a different random seed. Oracle: forward, inverse, log_prob and "
@@ -29,7 +30,7 @@ def budget(tier):
 
 @st.composite
 def _case(draw):
-    kind = draw(st.sampled_from(["transform", "transform", "flow", "maf", "realnvp"]))
+    kind = draw(st.sampled_from(["transform", "transform", "transform", "flow", "flow", "maf", "realnvp", "dist"]))
     c = draw(zoo.transform_case({"regimes": ["fresh"], "umnn": draw(st.integers(0, 12)) == 0,
                                  "only": None}))
     c["init"]["reload"] = False
@@ -38,7 +39,13 @@ def _case(draw):
     c["k"] = draw(st.integers(0, 3))
     c["via_buffer"] = draw(st.booleans())
     c["seed"] = draw(st.integers(0, 10 ** 6))
-    c["base"] = draw(st.sampled_from(["standard", "conditional", "diagonal"]))
+    c["base"] = draw(st.sampled_from(["standard", "conditional", "diagonal", "mademog"]))
+    c["mog"] = {"random_mask": draw(st.booleans()), "res": draw(st.booleans()), "K": draw(st.integers(1, 3)), "blocks": draw(st.integers(1, 2)),
+                "custom_init": draw(st.booleans())}
+    if kind == "dist":
+        c["dist"] = draw(st.sampled_from(["mademog", "mademog", "conditional", "diagonal", "bernoulli"]))
+        c["features"] = draw(st.integers(1, 5))
+        c["dctx"] = draw(st.sampled_from([None, 2])) if c["dist"] == "mademog" else 2
     c["embed"] = draw(st.booleans())
     if kind in ("maf", "realnvp"):
         c["features"] = draw(st.integers(2, 5))
@@ -71,6 +78,17 @@ def _build(case, seed, shift):
         m = SimpleRealNVP(case["features"], 8, case["layers"], 1, use_volume_preserving=case["volume_preserving"],
                           batch_norm_within_layers=case["bn_within"], batch_norm_between_layers=case["bn_between"])
         return m, [case["features"]], None, "R"
+    if kind == "dist":
+        F, mg = case["features"], case["mog"]
+        if case["dist"] == "mademog":
+            m = dist.MADEMoG(F, 8, case["dctx"], num_blocks=mg["blocks"], num_mixture_components=mg["K"], random_mask=mg["random_mask"],
+                             use_residual_blocks=mg["res"] and not mg["random_mask"], custom_initialization=mg["custom_init"])
+            return m, [F], case["dctx"], "R"
+        if case["dist"] == "conditional":
+            return dist.ConditionalDiagonalNormal([F], context_encoder=torch.nn.Linear(2, 2 * F)), [F], 2, "R"
+        if case["dist"] == "bernoulli":
+            return dist.ConditionalIndependentBernoulli([F], context_encoder=torch.nn.Linear(2, F)), [F], 2, "01"
+        return dist.DiagonalNormal([F]), [F], None, "R"
     spec = zoo.reseed(case["spec"], shift)
     b = zoo.build(spec, case["shape"], case.get("ctx"))
     if kind == "flow" and len(b.out_shape) == 1 and len(b.in_shape) == 1:
@@ -78,6 +96,10 @@ def _build(case, seed, shift):
         ctxk = case.get("ctx")
         if case["base"] == "conditional" and ctxk is not None:
             base = dist.ConditionalDiagonalNormal([D], context_encoder=torch.nn.Linear(ctxk, 2 * D))
+        elif case["base"] == "mademog":
+            mg = case["mog"]
+            base = dist.MADEMoG(D, 8, ctxk, num_blocks=mg["blocks"], num_mixture_components=mg["K"], random_mask=mg["random_mask"],
+                                use_residual_blocks=mg["res"] and not mg["random_mask"], custom_initialization=mg["custom_init"])
         elif case["base"] == "diagonal":
             base = dist.DiagonalNormal([D])
         else:
@@ -91,6 +113,8 @@ def _inputs(case, b, ctxw, n, seed):
     g = torch.Generator().manual_seed(seed)
     if isinstance(b, list):
         X = torch.randn([n] + b, generator=g)
+        if case.get("kind") == "dist" and case.get("dist") == "bernoulli":
+            X = (X > 0).float()
         shape = b
     else:
         X, _ = zoo.gen_inputs(b, n, seed, 0.2, 1.0, dom=case["dom"])
@@ -112,7 +136,8 @@ def _calls(obj, X, C, is_flow, b):
             out[name] = "raised:" + type(e).__name__
     if is_flow:
         rec("log_prob", lambda: obj.log_prob(X, C))
-        rec("transform_to_noise", lambda: obj.transform_to_noise(X, C))
+        if hasattr(obj, "transform_to_noise"):
+            rec("transform_to_noise", lambda: obj.transform_to_noise(X, C))
         torch.manual_seed(77)
         rec("sample", lambda: obj.sample(2, C))
     else:
@@ -134,10 +159,11 @@ def run_case(case):
     res = CaseResult()
     with dtype_mode(False):
         A, bA, ctxw, dom = _build(case, case["seed"], 0)
-        is_flow = case["kind"] in ("flow", "maf", "realnvp") and hasattr(A, "log_prob")
+        is_flow = case["kind"] in ("flow", "maf", "realnvp", "dist") and hasattr(A, "log_prob")
         site = type(A).__name__
         res.labels += ["kind:" + case["kind"], "history:" + case["history"], "via_buffer:%s" % case["via_buffer"]] + \
-            (["top:" + case["spec"]["t"]] if case["kind"] in ("transform", "flow") else [])
+            (["top:" + case["spec"]["t"]] if case["kind"] in ("transform", "flow") else []) + \
+            (["dist:" + case["dist"]] if case["kind"] == "dist" else []) + (["base:" + case["base"]] if case["kind"] == "flow" else [])
         n = 3
         Xh, Ch = _inputs(case, bA, ctxw, 4, case["seed"] + 5)
         # ---- history before saving
